@@ -132,8 +132,10 @@ def oracle(lines, im):
                 return ("pagination lost/added keys: got %s want %s" % ([x.hex() for x in got], [x.hex() for x in want]), dict(sg, what="lost-key"))
             if got != want:
                 return ("pagination order differs from the channel's sort order: got %s want %s" % ([x.hex() for x in got], [x.hex() for x in want]), dict(sg, what="order"))
-            if lim > 0 and (any(s != lim for s in sizes[:-1]) or sizes[-1] > lim):
-                return ("page sizes %s do not make progress in steps of %d" % (sizes, lim), dict(sg, what="page-size"))
+            if lim > 0 and any(s > lim for s in sizes):
+                return ("a page of the memory broker exceeds the limit %d: sizes %s" % (lim, sizes), dict(sg, what="page-size"))
+            if any(s == 0 for s in sizes[:-1]):
+                return ("an empty page was returned together with a cursor (no progress): sizes %s" % sizes, dict(sg, what="empty-page"))
         elif ws[0] == "state" and f.get("status") == "ok" and kv["key"] != "-":
             k = refmap.unhex(kv["key"])
             pubs = [] if f["pubs"] == "-" else f["pubs"].split(",")
@@ -164,7 +166,7 @@ def run(ctx):
     else:
         corpus = [l.rstrip("\n") for l in open(os.path.join(HERE, "corpus.ops")) if l.strip() and not l.startswith("#")]
         ops = list(corpus)
-        for _ in range(ctx.scale(900, 30000)):
+        for _ in range(ctx.scale(700, 6000)):
             ops += gen_scenario(ctx.rng, ctx.thorough)
 
     def nontrivial(lines, im):
